@@ -24,8 +24,11 @@
 //!                            (free-running, real clock: a wait with timeout `d` on a target that cannot finish before the
 //!                            harness lets it — `wait`: it keeps running; the other two: its `post_stop` is gated — must
 //!                            report the timeout, not before `d`, with no effect of a timed-out `wait`; oracle only)
+//!   `xchildren <i> kind=stop|drain n=<k>` | `ret=<0|1> kids=<st,…> parent=<st>`
+//!                            (free-running: `stop_children_and_wait` / `drain_children_and_wait` return only when every
+//!                            child is fully stopped, the parent keeps running; oracle only)
 //!
-//! usage: exitrace --seed S --cases N --out DIR [--enum-cap K] [--stress N] [--timeouts N] [--stress-only 1] [--replay-ops f1,f2 [--only-replay 1]]
+//! usage: exitrace --seed S --cases N --out DIR [--enum-cap K] [--stress N] [--timeouts N] [--children N] [--stress-only 1] [--replay-ops f1,f2 [--only-replay 1]]
 
 use std::future::Future;
 use std::pin::Pin;
@@ -822,6 +825,55 @@ fn timeout_case(env: &mut Env, srt: &tokio::runtime::Runtime, rng: &mut Rng, idx
     env.st.bump(&format!("timeout_{kind}_{}", obs.split(' ').next().unwrap_or("?")));
 }
 
+/// `stop_children_and_wait` / `drain_children_and_wait` on a running parent with `n` running children whose
+/// `post_stop` is gated; another task opens the gate after a few yields. When the call returns every child must be
+/// fully stopped and the parent untouched. (With the async-std backend the per-child waits are polled inline by the
+/// caller through the backend's `JoinSet` wrapper, with tokio they are a `tokio::task::JoinSet`.)
+fn children_case(env: &mut Env, srt: &tokio::runtime::Runtime, rng: &mut Rng, idx: u64) {
+    let kind = *rng.pick(&["stop", "drain"]);
+    let n = rng.range(1, 4) as usize;
+    let open_after = rng.range(0, 3) * rng.range(0, 200);
+    let gate = Arc::new(tokio::sync::Semaphore::new(0));
+    let obs = srt.block_on(async {
+        // (`Sup` overrides the default supervision policy, which would stop the parent with its first child)
+        let (parent, _) = Actor::spawn(None, Sup { events: Arc::new(Mutex::new(Vec::new())) }, ()).await.expect("spawn parent");
+        let mut kids = Vec::new();
+        for _ in 0..n {
+            let (k, _) = Actor::spawn_linked(None, Gated { gate: gate.clone() }, (), parent.get_cell()).await.expect("spawn kid");
+            kids.push(k);
+        }
+        for k in &kids {
+            while k.get_status() != ractor::ActorStatus::Running {
+                tokio::task::yield_now().await;
+            }
+        }
+        let g2 = gate.clone();
+        let opener = tokio::spawn(async move {
+            for _ in 0..open_after {
+                tokio::task::yield_now().await;
+            }
+            g2.add_permits(64);
+        });
+        let cell = parent.get_cell();
+        let fut = async {
+            match kind {
+                "stop" => cell.stop_children_and_wait(None, None).await,
+                _ => cell.drain_children_and_wait(None).await,
+            }
+        };
+        let returned = tokio::time::timeout(Duration::from_secs(10), fut).await.is_ok();
+        let sts: Vec<String> = kids.iter().map(|k| (k.get_status() as u8).to_string()).collect();
+        let pst = parent.get_status() as u8;
+        let _ = opener.await;
+        gate.add_permits(64);
+        parent.stop(None);
+        format!("ret={} kids={} parent={pst}", returned as u8, sts.join(","))
+    });
+    env.log.rec(format!("xchildren {idx} kind={kind} n={n}"), obs);
+    env.st.bump("children_cases");
+    env.st.bump(&format!("children_{kind}"));
+}
+
 fn replay_file(env: &mut Env, path: &str) {
     let txt = std::fs::read_to_string(path).unwrap_or_else(|e| panic!("cannot read {path}: {e}"));
     let lines: Vec<&str> = txt.lines().collect();
@@ -939,6 +991,13 @@ fn main() {
         let srt = tokio::runtime::Builder::new_multi_thread().worker_threads(2).enable_time().build().expect("timeout runtime");
         for i in 0..timeouts {
             timeout_case(&mut env, &srt, &mut rng, i);
+        }
+    }
+    let children = args.u64("children", 0);
+    if children > 0 && args.u64("only-replay", 0) == 0 {
+        let srt = tokio::runtime::Builder::new_multi_thread().worker_threads(2).enable_time().build().expect("children runtime");
+        for i in 0..children {
+            children_case(&mut env, &srt, &mut rng, i);
         }
     }
     env.st.add("lines", env.log.lines);
